@@ -15,6 +15,7 @@ import DadiVerif.Model.Optim
    c12.trace <wrapper> <p0> <lower|N> <upper|N> <fixed|N> <llscale> <queries> <xopt> <fopt> <keys> <vals> <exptab> <logtab> <tol> <vtol>
                                                -> ok <start|N> <optLower|N> <optUpper|N> <values> <evals> <result|N> <reported|N> <failed clauses | ->
                                                   | err unknown_wrapper | err ValueError | err IndexError | err missing_table_entry | err missing_model_entry
+   c12.points  <same arguments as c12.trace>   -> ok <vectors whose likelihood c12.trace will look up> (the likelihood table given is ignored)
    c12.perturb <params> <factors> <lower|N> <upper|N>  -> ok <vec>       | err shape
 -/
 namespace DadiVerif.Driver.Optim
@@ -54,6 +55,16 @@ def showOptBounds : Option (List (Option Rat)) → String
   | none => "N"
   | some l => showOptVec l
 
+def showBV : BV → String
+  | .absent => "n"
+  | .val r => showRat r
+  | .nan => "nan"
+  | .winf => "winf"
+
+def showBVs : Option (List BV) → String
+  | none => "N"
+  | some l => if l.isEmpty then "-" else ",".intercalate (l.map showBV)
+
 def showVecs (l : List (List Rat)) : String :=
   if l.isEmpty then "=" else ";".intercalate (l.map showList)
 
@@ -81,7 +92,7 @@ def freeLenOk (l : List Rat) : Option Fixed → Bool
   | none => true
   | some fx => decide (nFree fx ≤ l.length)
 
-def traceOp (w : Wrapper) (pb : Problem) (qs : List (List Rat)) (xopt : List Rat) (fopt : Rat) (mt : MTab)
+def traceOp (pointsOnly : Bool) (w : Wrapper) (pb : Problem) (qs : List (List Rat)) (xopt : List Rat) (fopt : Rat) (mt : MTab)
     (expT logT : Tab) (tol vtol : Rat) : String :=
   -- what the real code refuses
   if !(lenOk pb.p0 pb.fixed) then "err ValueError" else
@@ -92,17 +103,18 @@ def traceOp (w : Wrapper) (pb : Problem) (qs : List (List Rat)) (xopt : List Rat
     let expF := expT.fn d; let logF := logT.fn d
     let r := runWrapper w expF logF pb mt.fn (replay qs (xopt, fopt)) (qs.length + 1)
     let failed := checkTrace w expF logF pb mt.fn tol vtol r
-    (s!"{showOptList r.start} {showOptBounds r.optLower} {showOptBounds r.optUpper} {showList (r.run.history.map (·.2))} " ++
+    (s!"{showOptList r.start} {showBVs r.optLower} {showBVs r.optUpper} {showList (r.run.history.map (·.2))} " ++
      s!"{showVecs r.run.evals} {showOptList r.result} {match r.reported with | none => "N" | some f => showRat f} " ++
      (if failed.isEmpty then "-" else ",".intercalate failed), r)
   let (s0, r0) := render 0
   let (s1, _) := render 1
   if s0 != s1 then "err missing_table_entry" else
   -- every point whose likelihood the answer depends on must be in the table of recorded likelihoods
-  let lo := w.objLower.bind (evalB (expT.fn 0) (logT.fn 0) pb true)
-  let up := w.objUpper.bind (evalB (expT.fn 0) (logT.fn 0) pb false)
+  let lo := w.objLower.bind (evalBObj (expT.fn 0) (logT.fn 0) pb true)
+  let up := w.objUpper.bind (evalBObj (expT.fn 0) (logT.fn 0) pb false)
   let wouldEval (v : List Rat) : Bool := (objectFunc lo up none 1 mt.fn v).2.isSome
   let extra := (r0.result.toList ++ (if w.maximize && w.start.isSome then [startFull pb] else [])).filter wouldEval
+  if pointsOnly then "ok " ++ showVecs (r0.run.evals ++ extra) else
   if !((r0.run.evals ++ extra).all mt.has) then "err missing_model_entry" else
   "ok " ++ s0
 
@@ -138,7 +150,15 @@ def handle (toks : List String) : Option String :=
       let tol ← parseRat tol; let vtol ← parseRat vtol
       match Gen.Optim.wrappers.find? (fun w => w.name == wn) with
       | none => some "err unknown_wrapper"
-      | some w => some (traceOp w ⟨p0, lo, up, fx, sc⟩ qs xopt fopt mt expT logT tol vtol)
+      | some w => some (traceOp false w ⟨p0, lo, up, fx, sc⟩ qs xopt fopt mt expT logT tol vtol)
+  | ["c12.points", wn, p0, lo, up, fx, sc, qs, xopt, fopt, keys, vals, expT, logT, tol, vtol] => do
+      let p0 ← parseList p0; let lo ← parseOptBounds lo; let up ← parseOptBounds up; let fx ← parseOptBounds fx
+      let sc ← parseRat sc; let qs ← parseVecs qs; let xopt ← parseList xopt; let fopt ← parseRat fopt
+      let mt ← parseMTab keys vals; let expT ← parseTab expT; let logT ← parseTab logT
+      let tol ← parseRat tol; let vtol ← parseRat vtol
+      match Gen.Optim.wrappers.find? (fun w => w.name == wn) with
+      | none => some "err unknown_wrapper"
+      | some w => some (traceOp true w ⟨p0, lo, up, fx, sc⟩ qs xopt fopt mt expT logT tol vtol)
   | ["c12.perturb", params, factors, lo, up] => do
       let params ← parseList params; let factors ← parseList factors
       let lo ← parseOptBounds lo; let up ← parseOptBounds up
